@@ -919,6 +919,14 @@ fn function2_registry() -> HashMap<Func2Type, Vec<Function2>> {
                     type_out: Type::unencoded(BasicType::Boolean).mutable(),
                     encoding_invariance: true,
                 },
+                Function2::forward_left_null(BasicType::Float),
+                Function2::forward_right_null(BasicType::Float),
+                Function2::forward_left_null(BasicType::Integer),
+                Function2::forward_right_null(BasicType::Integer),
+                Function2::forward_left_null(BasicType::String),
+                Function2::forward_right_null(BasicType::String),
+                Function2::forward_left_null(BasicType::Null),
+                Function2::forward_right_null(BasicType::Null),
             ],
         ),
         (
@@ -959,6 +967,8 @@ fn function2_registry() -> HashMap<Func2Type, Vec<Function2>> {
                 Function2::forward_right_null(BasicType::Float),
                 Function2::forward_left_null(BasicType::Integer),
                 Function2::forward_right_null(BasicType::Integer),
+                Function2::forward_left_null(BasicType::String),
+                Function2::forward_right_null(BasicType::String),
                 Function2::forward_left_null(BasicType::Null),
                 Function2::forward_right_null(BasicType::Null),
             ],
@@ -1001,6 +1011,8 @@ fn function2_registry() -> HashMap<Func2Type, Vec<Function2>> {
                 Function2::forward_right_null(BasicType::Float),
                 Function2::forward_left_null(BasicType::Integer),
                 Function2::forward_right_null(BasicType::Integer),
+                Function2::forward_left_null(BasicType::String),
+                Function2::forward_right_null(BasicType::String),
                 Function2::forward_left_null(BasicType::Null),
                 Function2::forward_right_null(BasicType::Null),
             ],
@@ -1043,6 +1055,8 @@ fn function2_registry() -> HashMap<Func2Type, Vec<Function2>> {
                 Function2::forward_right_null(BasicType::Float),
                 Function2::forward_left_null(BasicType::Integer),
                 Function2::forward_right_null(BasicType::Integer),
+                Function2::forward_left_null(BasicType::String),
+                Function2::forward_right_null(BasicType::String),
                 Function2::forward_left_null(BasicType::Null),
                 Function2::forward_right_null(BasicType::Null),
             ],
@@ -1085,6 +1099,8 @@ fn function2_registry() -> HashMap<Func2Type, Vec<Function2>> {
                 Function2::forward_right_null(BasicType::Float),
                 Function2::forward_left_null(BasicType::Integer),
                 Function2::forward_right_null(BasicType::Integer),
+                Function2::forward_left_null(BasicType::String),
+                Function2::forward_right_null(BasicType::String),
                 Function2::forward_left_null(BasicType::Null),
                 Function2::forward_right_null(BasicType::Null),
             ],
@@ -1127,6 +1143,8 @@ fn function2_registry() -> HashMap<Func2Type, Vec<Function2>> {
                 Function2::forward_right_null(BasicType::Float),
                 Function2::forward_left_null(BasicType::Integer),
                 Function2::forward_right_null(BasicType::Integer),
+                Function2::forward_left_null(BasicType::String),
+                Function2::forward_right_null(BasicType::String),
                 Function2::forward_left_null(BasicType::Null),
                 Function2::forward_right_null(BasicType::Null),
             ],
@@ -1217,10 +1235,11 @@ impl QueryPlan {
                     QueryPlan::compile_expr(lhs, filter, columns, column_len, planner)?;
                 let (plan_rhs, type_rhs) =
                     QueryPlan::compile_expr(rhs, filter, columns, column_len, planner)?;
+                // NULL AND x is never true: the result is the NULL operand
                 if type_lhs.decoded == BasicType::Null {
-                    return Ok((plan_rhs, type_rhs));
-                } else if type_rhs.decoded == BasicType::Null {
                     return Ok((plan_lhs, type_lhs));
+                } else if type_rhs.decoded == BasicType::Null {
+                    return Ok((plan_rhs, type_rhs));
                 }
                 if type_lhs.decoded != BasicType::Boolean || type_rhs.decoded != BasicType::Boolean
                 {
